@@ -75,15 +75,19 @@ void sim_free(void *p) {
     free(p);
 }
 void *sim_realloc(void *p, size_t n) {
+    // always move: a stale pointer into the old block is then a use-after-free in every run, not only when the heap layout forces a move
     if (!p) return sim_malloc(n);
     if (n > MAX_ALLOC) { ++n_ref; return nullptr; }
     auto it = live.find(p);
-    size_t old = 0; uint64_t id = ++n_alloc;
-    if (it != live.end()) { old = it->second.size; live_b -= old; live.erase(it); }
-    void *q = realloc(p, n ? n : 1);
-    if (!q) { live[p] = Blk{old, id, sim::cur_task()}; live_b += old; return nullptr; }
+    if (it == live.end()) { fprintf(stderr, "SIMALLOC: realloc of unknown pointer %p\n", p); return realloc(p, n); }
+    size_t old = it->second.size;
+    void *q = malloc(n ? n : 1);
+    if (!q) return nullptr;
+    memcpy(q, p, old < n ? old : n);
     if (n > old) fill((uint8_t *) q, old, n, n);
-    live[q] = Blk{n, id, sim::cur_task()}; live_b += n;
+    live_b -= old; live.erase(it);
+    free(p);
+    live[q] = Blk{n, ++n_alloc, sim::cur_task()}; live_b += n;
     return q;
 }
 }
